@@ -6,10 +6,10 @@ correspondence:  for each generated pair x {ordered (x threshold), ignore_order,
                    pretty() statements (split at the prefix), json.loads(to_json()) as a JSON-able
                    value (duplicate keys kept), to_dict(view_override='text') of the tree-view object,
                    to_dict(view_override='tree') of the text-view object;
-                   at verbose 1: the delta view (view='_delta'), one or two real DiffLevel lines
+                   at verbose 1: the delta view (view='_delta'), one real DiffLevel line
                    (path() in both forms on both sides on every object of the line), in
                    report_repetition runs the guards aligned / sibinj;
-                   at verbose 2: to_json(default_mapping=M), M from 10 families, the convertors as
+                   at verbose 2 (75%): to_json(default_mapping=M), M from 10 families, the convertors as
                    tables of their recorded calls;
                  plus str()/repr()/JSON-able value of single generated values and
                  json_dumps(v, default_mapping=M).
@@ -1012,7 +1012,7 @@ def assemble(run, parts, tag):
 
 
 def c10_case(rng, a, b, thr, verbose, dt, dr):
-    """one Coq case: all presentations of an ordered-mode run (+ at verbose 1 the delta view and two DiffLevel lines,
+    """one Coq case: all presentations of an ordered-mode run (+ at verbose 1 the delta view and one DiffLevel line,
     at verbose 2 to_json(default_mapping=M))"""
     try:
         js = json_obs(dt.to_json())
@@ -1031,12 +1031,12 @@ def c10_case(rng, a, b, thr, verbose, dt, dr):
             cv = DC.conv_table(DC.type_change_pairs(dr))
             dv = delta_view_of(a, b, {"threshold_to_diff_deeper": thr})
             parts.append(("sx_c10_delta %s %s %s %s r" % (cv, ops, V.to_coq(a), V.to_coq(b)), ["delta", DC.delta_obs(dv)]))
-        for lv in pick_levels(rng, dr):
+        for lv in pick_levels(rng, dr, 1):
             try:
                 parts.append(level_component(lv))
             except NotInUniverse:
                 pass
-    if verbose == 2:
+    if verbose == 2 and rng.random() < 0.75:
         c = jsonmap_component(rng, dt, False, verbose, "(fst r)", "[]")
         if c:
             parts.append(c)
@@ -1075,7 +1075,7 @@ def io_case(rng, a, b, verbose, dt, dr):
                 parts.append(level_component(lv))
             except NotInUniverse:
                 pass
-    if verbose == 2:
+    if verbose == 2 and rng.random() < 0.75:
         c = jsonmap_component(rng, dr, False, verbose, "(fst r)", "[]")
         if c:
             parts.append(c)
@@ -1131,7 +1131,7 @@ def rep_case(rng, a, b, verbose, dt, dr):
                 parts.append(level_component(lv))
             except NotInUniverse:
                 pass
-    if verbose == 2:
+    if verbose == 2 and rng.random() < 0.75:
         c = jsonmap_component(rng, dt, True, verbose, "(fst r)", rs)
         if c:
             parts.append(c)
@@ -1486,7 +1486,7 @@ def run(ctx):
             vcases.append(value_case(v))
     ctx.coq_cases("c10v", HDR, vcases, shard=150, label="str_repr_jsonable")
     mcases = []
-    for _ in range(1500 if ctx.thorough else 250):
+    for _ in range(1500 if ctx.thorough else 200):
         v = gen_val(ctx.rng, 3, 3)
         if repr_in_model(v):
             c = dumps_case(ctx.rng, v)
